@@ -471,6 +471,12 @@ def _strand_flag_kept(ctx):
         r8_bins_size_strand(ctx)     # a table derived from stranded intervals stays stranded (it decides reverse-complementing on '-')
 
 
+
+def _round7_retarget(ctx):
+    from .round7 import retarget_by_membership, code_lookup_tables
+    retarget_by_membership(ctx, "C14-R8")      # translation / complement tables are indexed by the codes of THEIR alphabet: re-labelled input must keep letters, not codes
+    code_lookup_tables(ctx, ["bionumpy.genomic_data.genomic_sequence", "bionumpy.io.indexed_fasta", "bionumpy.sequence.dna", "bionumpy.sequence.translate"], "C14-R8")
+
 RULES = [
     ("C14-R1", r1_complement),
     ("C14-R2", r2_genetic_code),
@@ -481,4 +487,5 @@ RULES = [
     ("C14-R5", _fasta_byte_arithmetic),
     ("C14-R6", _delta_arrays),
     ("C14-R7", _strand_flag_kept),
+    ("C14-R8", _round7_retarget),
 ]
